@@ -453,13 +453,28 @@ def depfix_table(ctx):
             ok = False
     ctx.ob(R, 'eof|truncated-input-rejected', ok, f.node,
            'a truncated depfile is accepted silently')
-    # tokenizer: escaped newline swallowed, backslash kept with next char
+    # tokenizer: escaped newline swallowed, backslash kept with next char.
+    # Token producers: the yields of tokenize, and the returns of a helper
+    # whose rows tokenize re-yields (`yield from _escape_tokens(c)`).
     tk = F.fn('bfg9000.depfixer:tokenize')
+    helpers = []
+    for n in ast.walk(tk.node):
+        if isinstance(n, ast.YieldFrom) and isinstance(n.value, ast.Call):
+            h = F.flow.resolve_call(n.value, tk)
+            if h is not None and h not in helpers:
+                helpers.append(h)
     ys = [n for n in ast.walk(tk.node) if isinstance(n, ast.Yield) and
           n.value is not None and has_const(F.atoms(n.value, tk), '\\')]
-    ok = bool(ys) and all(any(
-        op == 'NotEq' and (has_const(l, '\n') or has_const(r, '\n'))
-        for op, l, r in F.guard_compares(y, tk)) for y in ys)
+    hrets = [(r, h) for h in helpers for r in Q.returns(h.node)
+             if r.value is not None and has_const(F.atoms(r.value, h),
+                                                  '\\')]
+
+    def not_newline(n, g):
+        return any(op == 'NotEq' and (has_const(l, '\n') or
+                                      has_const(r, '\n'))
+                   for op, l, r in F.guard_compares(n, g))
+    ok = bool(ys or hrets) and all(not_newline(y, tk) for y in ys) and all(
+        not_newline(r, h) for r, h in hrets)
     ctx.ob(R, 'tokenize|escapes', ok, tk.node,
            'backslash escapes are not passed through / continuation lines '
            'not swallowed')
@@ -480,7 +495,7 @@ def depfix_table(ctx):
                                                  'colon'}]
     heads = [n for n in walk_no_nested(tk.node) if isinstance(
         n, (ast.While, ast.For))]
-    ok = bool(ys) and bool(esc_char) and bool(others)
+    ok = bool(ys or hrets) and (not ys or (bool(esc_char) and bool(others)))
     for b in ys:
         for o in others:
             try:
@@ -489,6 +504,20 @@ def depfix_table(ctx):
                     ok = False
             except Exception:
                 ok = False
+    for r, h in hrets:
+        # the helper hands back the backslash and the escaped character as
+        # rows of one result: (char, '\\'), (char, c) -- or the input ended
+        rows = r.value.elts if isinstance(r.value, (ast.Tuple, ast.List)) \
+            else []
+        with_char = any(
+            isinstance(x, (ast.Tuple, ast.List)) and len(x.elts) == 2 and
+            not isinstance(x.elts[1], ast.Constant) and
+            unparse(x.elts[0]).endswith('Token.char') for x in rows)
+        at_end = any(op in ('Is', 'Eq') and (has_const(l, None) or
+                                             has_const(rr, None))
+                     for op, l, rr in F.guard_compares(r, h))
+        if not (with_char or at_end):
+            ok = False
     ctx.ob(R, 'tokenize|escaped-character-is-a-char', ok, tk.node,
            'the character after a backslash can be tokenized as a '
            'separator: an escaped space splits a file name')
